@@ -297,7 +297,7 @@ func (m *MemoryBackend) Subscribe(client *Client, subs []packet.Subscription, ac
 		for _, value := range values {
 			// add to temporary queue or return error if queue is full
 			select {
-			case sess.temporaryQueue <- value.(*packet.Message):
+			case sess.temporaryQueue <- sess.applyQOS(value.(*packet.Message)):
 			default:
 				return ErrQueueFull
 			}
@@ -368,14 +368,14 @@ func (m *MemoryBackend) Publish(client *Client, msg *packet.Message, ack Ack) er
 			if sess.activeClient == client {
 				// detect deadlock when adding to own queue
 				select {
-				case queue(sess) <- msg:
+				case queue(sess) <- sess.applyQOS(msg):
 				default:
 					return ErrQueueFull
 				}
 			} else {
 				// wait for room since client is online
 				select {
-				case queue(sess) <- msg:
+				case queue(sess) <- sess.applyQOS(msg):
 				case <-sess.activeClient.Closing():
 				}
 			}
@@ -388,20 +388,20 @@ func (m *MemoryBackend) Publish(client *Client, msg *packet.Message, ack Ack) er
 			if sess.activeClient == client {
 				// detect deadlock when adding to own queue
 				select {
-				case queue(sess) <- msg:
+				case queue(sess) <- sess.applyQOS(msg):
 				default:
 					return ErrQueueFull
 				}
 			} else if sess.activeClient != nil {
 				// wait for room since client is online
 				select {
-				case queue(sess) <- msg:
+				case queue(sess) <- sess.applyQOS(msg):
 				case <-sess.activeClient.Closing():
 				}
 			} else {
 				// ignore message if offline queue is full
 				select {
-				case queue(sess) <- msg:
+				case queue(sess) <- sess.applyQOS(msg):
 				default:
 				}
 			}
